@@ -143,7 +143,7 @@ def check_history(hist):
 # nets are exactly those of the final mapping.  The expected nets are computed from the history alone (a specification
 # view: last operation per port; a port reference denotes whatever that port is finally on), never from the objects.
 E_PORTS = ("a", "b")
-E_FORMS = ("call", "setattr", "connect", "replace")
+E_FORMS = ("call", "setattr", "connect", "replace", "callbad")
 
 
 def elab_histories(rnd, n, maxlen):
@@ -176,6 +176,18 @@ def small_elab_histories():
                 yield (("setattr", 1, "a", ("held", 0, "a")), (f, 1, "a", y), ("setattr", 2, "a", keep), ("setattr", 0, "a", ("sig", 0)))
                 yield (("setattr", 1, "a", ("held", 0, "a")), ("disconnect", 1, "a", None), ("setattr", 2, "a", keep),
                        ("setattr", 1, "a", y), ("setattr", 0, "a", ("sig", 0)))
+    # a refused by-call in the middle of a history that goes on: what it connected before being refused stands, and later
+    # re-connections of that port start from it
+    for x in xs:
+        for y in ys:
+            yield (("setattr", 0, "a", x), ("callbad", 0, "a", ("ref", 1, "a")), ("setattr", 0, "a", y), ("setattr", 1, "a", ("sig", 2)))
+            yield (("setattr", 1, "a", ("ref", 0, "a")), ("callbad", 0, "a", x), ("replace", 0, "a", y))
+            yield (("setattr", 0, "a", x), ("callbad", 0, "a", ("held", 1, "a")), ("disconnect", 0, "a", None), ("setattr", 0, "a", y))
+    for f in ("setattr", "call", "connect", "replace"):
+        for x in xs:
+            for selfref in (("ref", 0, "a"), ("held", 0, "a")):
+                yield (("setattr", 0, "a", x), ("setattr", 1, "a", ("ref", 0, "a")), (f, 0, "a", selfref))
+                yield (("setattr", 0, "a", x), (f, 0, "a", selfref), ("setattr", 1, "a", ("ref", 0, "a")), ("setattr", 2, "a", x))
     for y in ys:
         yield (("setattr", 1, "a", ("ref", 0, "a")), ("setattr", 1, "a", ("sig", 2)), ("setattr", 0, "a", y))
         yield (("setattr", 1, "a", ("ref", 0, "a")), ("disconnect", 1, "a", None), ("setattr", 0, "a", y))
@@ -217,13 +229,25 @@ def check_elab_history(hist):
     w = {"elab_history": repr(hist)}
     for step, (op, i, p, t) in enumerate(hist):
         inst = insts[i]
-        if t is not None and t[0] in ("ref", "held", "catref") and (t[1], t[2]) == (i, p):
-            continue                                  # a port connected to itself: not a connection
+        if t is not None and t[0] == "catref" and (t[1], t[2]) == (i, p):
+            continue                                  # a port connected to a concatenation of itself: declares no net at all
+        # (a port connected to a reference to ITSELF - `i.p = i.p` - is a connection like any other: it replaces what the
+        #  port was tied to, and the port, with everything referring to it, ends up on a net of its own)
         if op in ("replace", "disconnect") and (i, p) not in view:
             continue                                  # documented KeyError; covered by the data-structure histories
         try:
             if op == "call":
                 inst(**{p: obj(t)})
+            elif op == "callbad":
+                # connect-by-call with a second keyword that is refused (not connectable): the exception is caught, the
+                # first keyword's connection - made before the refusal - stands
+                other = [q for q in E_PORTS if q != p][0]
+                try:
+                    inst(**{p: obj(t), other: 5})
+                except TypeError:
+                    pass
+                else:
+                    return ("elab.accepts-non-connectable", f"step {step} of {hist!r}: a by-call connection to 5 was accepted", w)
             elif op == "setattr":
                 setattr(inst, p, obj(t))
             elif op == "connect":
